@@ -12043,6 +12043,12 @@ where
 		}
 	}
 
+	/// Verification hook: whether `AwaitingRemoteRevoke` is set.
+	#[cfg(feature = "verif_hooks")]
+	pub(crate) fn verif_is_awaiting_remote_revoke(&self) -> bool {
+		self.context.channel_state.is_awaiting_remote_revoke()
+	}
+
 	/// Returns true if this channel has been marked as awaiting a monitor update to move forward.
 	/// Allowed in any state (including after shutdown)
 	pub fn is_awaiting_monitor_update(&self) -> bool {
